@@ -167,13 +167,33 @@ func IsKnown(key string) bool {
 	if _, ok := known[key]; ok {
 		return true
 	}
-	// a listed key ending in "*" covers the family of root causes with that prefix
+	// "*" in a listed key matches any run of characters: a family of root causes
 	for k := range known {
-		if strings.HasSuffix(k, "*") && strings.HasPrefix(key, strings.TrimSuffix(k, "*")) {
+		if strings.Contains(k, "*") && wildMatch(k, key) {
 			return true
 		}
 	}
 	return false
+}
+
+func wildMatch(pattern, s string) bool {
+	parts := strings.Split(pattern, "*")
+	if !strings.HasPrefix(s, parts[0]) {
+		return false
+	}
+	s = s[len(parts[0]):]
+	for i := 1; i < len(parts); i++ {
+		p := parts[i]
+		if i == len(parts)-1 {
+			return strings.HasSuffix(s, p)
+		}
+		j := strings.Index(s, p)
+		if j < 0 {
+			return false
+		}
+		s = s[j+len(p):]
+	}
+	return s == ""
 }
 
 // Violation reports a violation with a root-cause key. A key listed under "known" in
